@@ -165,7 +165,7 @@ def handleFiles (args : List String) (impl : String) : String :=
   | none => badReq "fspec"
   | some specs =>
     let given : List FileIn := specs.map fun s =>
-      ⟨cpioPath s.dest, 32768 ||| (s.perm &&& 4095), contentOf s.kind s.seed s.size⟩
+      ⟨cpioPath s.dest, (if s.kind == 's' then 40960 else 32768) ||| (s.perm &&& 4095), contentOf s.kind s.seed s.size⟩
     -- model of the builder: BTreeMap keyed by cpio path, first insertion wins
     let fs := buildFiles given
     let sizes := fs.map (·.content.length)
@@ -196,11 +196,18 @@ def handleFiles (args : List String) (impl : String) : String :=
       ⟨pathRepr (headerPath f.path), toString f.content.length, toString f.content.length,
        hex16 (fnv f.content), octal f.mode, "1"⟩
     let verdict :=
-      if dup ∨ tooLong then "dontcare"
+      if dup ∨ tooLong then
+        -- which of two files with one destination is kept is not the property's business; that every item handed out has the
+        -- recorded size and the recorded digest is (seed C08-7: the second content under the first one's digest)
+        match parseImpl impl with
+        | some o => if o.items.any (fun i => i.len ≠ i.size) then "fails:size" else if o.items.any (fun i => i.dg == "0") then "fails:digest"
+                    else if o.all.startsWith "adapters-differ" then "fails:adapters" else "dontcare"
+        | none => "dontcare"
       else match parseImpl impl with
         | none => "fails:err"
         | some o =>
           if o.all == "runaway" then "fails:runaway"
+          else if o.all.startsWith "adapters-differ" then "fails:adapters"
           else if o.err.isSome then "fails:err"
           else match firstDiff expItems o.items with
             | "none" => "holds"
@@ -318,6 +325,7 @@ def handleRaw (pkgHex : String) (impl : String) : String :=
                   else none
             let fails := (o.items.zipIdx.filterMap fun (i, j) => judge j i)
             if o.all == "runaway" then "fails:runaway"
+            else if o.all.startsWith "adapters-differ" then "fails:adapters"
             else if fails.contains "position-pairing" then "fails:position-pairing"
             else match fails.head? with
               | some c => "fails:" ++ c
